@@ -46,17 +46,17 @@ CHECKS = {
         "note": _SCHED_NOTE,
     },
     "C08": {
-        "text": "Same engine with a capacity monitor evaluated after every delivered event: the requests of jobs whose process is running sum to <= total. In-process token: total and requests symbolic unbounded ints (1<=r<=total). File token (one CounterToken instance on a scratch directory, real acquire/release/_update/TokenFile code): counts enumerated per shard (they are written to files), exit codes and schedule symbolic.",
+        "text": "Same engine with a capacity monitor evaluated after every delivered event: the requests of jobs whose process is running sum to <= total. In-process token: total and requests symbolic unbounded ints (1<=r<=total). File token (real acquire/release/_update/TokenFile/on_created/on_deleted/watch code on a scratch directory): counts enumerated per shard (they are written to files), exit codes and schedule symbolic; two in-process tokens (partial acquisition); TWO SCHEDULER PROCESSES (own experiment, loop, pid and CounterToken instance) sharing the token directory, with the other process's filesystem notifications, the watcher threads and one preemption point before the spawn as schedule events, incl. an observer-only second process and the invariant that a running job has its token file.",
         "design_ref": "DESIGN.md §3 C08",
-        "note": _SCHED_NOTE + " The multi-process clause (several schedulers sharing the token directory, stale availability, watchdog events) is NOT claimed in this round.",
+        "note": _SCHED_NOTE + " Multi-process: two processes, one job each, enumerated counts; own filesystem notifications are delivered at once; a token file observed half-written and more than two processes are outside.",
     },
     "C09": {
-        "text": "Same runs as C08 with the quiescence oracle: token.available == total, no *.token file left, every job whose request fits has reached a final state, no undeliverable event remains; aborted starts (LockError) are reachable through token contention.",
+        "text": "Same runs as C08 with the quiescence oracle: token.available == total, no *.token file left, every job whose request fits has reached a final state, no undeliverable event remains; aborted starts (LockError) are reachable through token contention and two tokens. Two scheduler processes on one token directory: both see an idle token at full capacity at quiescence; fault clause: the first scheduler is killed at an enumerated point while its job may hold the token, the survivor reclaims it through the watcher thread and runs its own job.",
         "design_ref": "DESIGN.md §3 C09",
-        "note": _SCHED_NOTE + " The fault clause (scheduler killed while its jobs hold tokens, reclaim through TokenFile.watch by another instance) is NOT claimed in this round.",
+        "note": _SCHED_NOTE + " Multi-process model as in C08; a partially written token file and more than two processes are outside.",
     },
     "C10": {
-        "text": "Symbolic crash-point exploration of the real TaskRunner (run.py is re-instrumented from the current source at each run with a tick before every statement): the tick of death, the kind of death (none/KILL/TERM/INT) and the body outcome are symbolic; one life is executed from every job-directory pre-state satisfying the invariant (.done => body completed earlier; no lock held) - an inductive step that covers any number of relaunches. Oracle: .done only if the body completed, lock dies with the process, body executed iff no .done at start, TERM/INT during the body leaves .failed and no .done, a job ending on its own leaves no .pid.",
+        "text": "Symbolic crash-point exploration of the real TaskRunner (run.py is re-instrumented from the current source at each run with a tick before every statement): the tick of death, the kind of death (none/KILL/TERM/INT) and the body outcome are symbolic; one life is executed from every job-directory pre-state satisfying the invariant (.done => body completed earlier; no lock held) - an inductive step that covers any number of relaunches. Oracle: .done only if the body completed, lock dies with the process, body executed iff no .done at start, TERM/INT during the body leaves .failed and no .done, a job ending on its own leaves no .pid. Concrete complements: the script generated by the real CommandLineJob.prepare lists the job lock file; the instrumented copy is the imported source.",
         "design_ref": "DESIGN.md §3 C10",
         "note": "Trusted: the OS/interpreter model (signals delivered at statement boundaries, atexit at interpreter exit, locks released at process end), CrossHair + z3. Outside: death inside one statement, fork children, real signals/fcntl, a process that ends before the scheduler wrote its pid file.",
     },
@@ -66,7 +66,7 @@ CHECKS = {
         "note": _IDENT_NOTE + " The JSON text layer is trusted (C accelerator realises symbolic values). One open known finding (task whose output is one of its own parameters) is excluded from the identifier clause and reported as KNOWN-FINDING.",
     },
     "C14": {
-        "text": "Symbolic mutation attempts on sealed graphs: after seal() / instance() / dry-run submit of 16 skeletons, a symbolic (kind, node, value) mutation attempt - assign int / Meta / None / container parameter, set_meta, add_pretasks - on any node must raise and leave values, meta flag and pre-tasks unchanged; every node must be sealed; identifiers (and the job path, concretely) before == after, with identifier requests interleaved.",
+        "text": "Symbolic mutation attempts on sealed graphs: after seal() / instance() / dry-run submit of 16 skeletons, a symbolic (kind, node, value) mutation attempt - assign int / Meta / None / container parameter, set_meta, add_pretasks - on any node must raise and leave values, meta flag and pre-tasks unchanged; every node must be sealed; identifiers (and the job path, concretely) before == after, with identifier requests interleaved; with an identifier request and a legitimate assignment BEFORE sealing, the frozen identifier must equal the reference encoding of the sealed content.",
         "design_ref": "DESIGN.md §3 C14",
         "note": _IDENT_NOTE + " In-place mutation of a list held by a sealed parameter bypasses set(): outside (the property speaks of assignments).",
     },
@@ -79,9 +79,9 @@ CHECKS = {
 
 CHECKS.update({
     "C05": {
-        "text": "Real scheduler on the deterministic environment: (a) an identical configuration submitted again at an enumerated program position (which job: symbolic), interleaved with a symbolic schedule: same output object, one registered job per distinct configuration, at most one launch of a job that does not fail; (b) an earlier experiment run (symbolic subset of the plan, closed under dependencies) leaves success markers: those jobs are never launched again and end DONE, the others behave as in C06/C07.",
+        "text": "Real scheduler on the deterministic environment: (a) an identical configuration submitted again at an enumerated program position (which job: symbolic), interleaved with a symbolic schedule: same output object, one registered job per distinct configuration, at most one launch of a job that does not fail; (b) an earlier experiment run leaves success markers for an arbitrary subset of the plan (the other job directories are removed): those jobs are never launched again and stay DONE whatever happens to their dependencies, the others behave as in C06/C07; a failed job re-submitted and then submitted a third time; (c, task side) two or three processes of one job script run the real TaskRunner.run - rewritten from the current source into a coroutine yielding at the lock acquisition and at the task body - under a symbolic interleaving: the body never runs twice at once nor again after a success.",
         "design_ref": "DESIGN.md §3 C05, §8.2",
-        "note": _SCHED_NOTE + " Clause (c) (several schedulers racing on one workspace) is NOT claimed in this round.",
+        "note": _SCHED_NOTE + " Clause (c) is checked on the task side only (the guard of last resort); whether two schedulers can both launch the same job is not modelled.",
     },
     "C11": {
         "text": "Two consecutive runs of the same plan in one model world: the first scheduler dies (loop, helper threads and inter-process locks vanish, job processes live on) after an enumerated number of delivered events (0..12, the events chosen symbolically); a new process runs the plan again with a symbolic schedule and symbolic exit codes. Oracle: final states equal the no-crash reference, every successful job was launched exactly once over both runs, no job is launched while its first process is alive (adoption through the pid file), the second run terminates.",
@@ -89,7 +89,7 @@ CHECKS.update({
         "note": _SCHED_NOTE + " The job process is the simplified model (marker + lock release atomically at exit); the real TaskRunner under death is C10's subject. OS behaviour (children surviving the parent, process groups) is outside.",
     },
     "C13": {
-        "text": "Symbolic execution of the real FromPython walk / ObjectStore / fromParameters / load_objects(as_instance=True) on 19 skeletons (sharing, cycles, parameter-less nodes, the same pre-task attached at several nodes, init tasks): one instance per reachable configuration, wired like the graph (isomorphism check), __post_init__ exactly once per instance with all parameters set, every pre-task executed exactly once, init tasks once each after the pre-tasks and before the body; each conversion is done twice in the same process to expose state kept between loads.",
+        "text": "Symbolic execution of the real FromPython walk / ObjectStore / fromParameters / load_objects(as_instance=True) on 19 skeletons (sharing, cycles, parameter-less nodes, the same pre-task attached at several nodes, init tasks): one instance per reachable configuration, wired like the graph (isomorphism check), __post_init__ exactly once per instance with all parameters set, every pre-task executed exactly once, init tasks once each after the pre-tasks and before the body; each conversion is done twice in the same process to expose state kept between loads; a pre-task referencing the node it is attached to (cycle through the pre-task), entered through the pre-task and through its owner.",
         "design_ref": "DESIGN.md §3 C13",
         "note": _IDENT_NOTE + " Recording __post_init__/execute is done by the universe classes (xv/defs).",
     },
